@@ -376,7 +376,7 @@ func TestVerifC12Send(t *testing.T) {
 		if !bytes.Equal(rdata, c.payload) {
 			out.Fail("C12:send:stream-differs", "sender -> receiver: the stream after the header differs from the client's stream", inp)
 		}
-		if vsRepresentable(c.version, effR, effL) && !c.unknownV1 && (!vsSame(rr, effR) || !vsSame(rl, effL)) {
+		if vsRepresentable(c.version, effR, effL) && (!vsSame(rr, effR) || !vsSame(rl, effL)) {
 			inp["roundtrip"] = fmt.Sprint(rr, " ", rl)
 			out.Fail("C12:send:addresses-differ", "sender -> receiver: the receiver does not report the client's effective addresses", inp)
 		}
